@@ -518,53 +518,50 @@ func CanonicalIsomorphAllocated(n, m int, neighbours [][]int, op *CanonicalOrder
 	//Handle the special case where m = 0.
 	//TODO: Check if this is necessary.
 	if m == 0 {
-		//Return the identity permutation.
+		//Every permutation which preserves the vertex classes is an automorphism.
+		//Return the vertices in the order of the vertex classes (the identity permutation if there are no vertex classes).
 		perm := storage.currentBestPerm[:n]
-		for i := 0; i < n; i++ {
-			perm[i] = i
-		}
-		//Every vertex is in the same orbit.
+		copy(perm, op.order[:n])
+		//Two vertices are in the same orbit if and only if they are in the same vertex class.
 		ds := storage.firstLeafOrbits[:n]
-		ds[0] = -2
-		for i := 1; i < n; i++ {
-			ds[i] = 0
+		generators := storage.generators[:0]
+		newGenerator := func() []int {
+			generators = generators[:len(generators)+1]
+			tmp := generators[len(generators)-1]
+			if cap(tmp) < n {
+				tmp = make([]int, n)
+			} else {
+				tmp = tmp[:n]
+			}
+			for i := range tmp {
+				tmp[i] = i
+			}
+			generators[len(generators)-1] = tmp
+			return tmp
 		}
-
-		if n == 1 {
-			return perm, ds, storage.generators[:0]
+		start := 0
+		for _, end := range op.binDividers {
+			class := op.order[start:end]
+			start = end
+			ds[class[0]] = -1
+			if len(class) == 1 {
+				continue
+			}
+			ds[class[0]] = -2
+			for _, v := range class[1:] {
+				ds[v] = class[0]
+			}
+			//The symmetric group on the class is generated by a cycle through the class and a transposition.
+			tmp := newGenerator()
+			for i, v := range class {
+				tmp[v] = class[(i+1)%len(class)]
+			}
+			if len(class) > 2 {
+				tmp = newGenerator()
+				tmp[class[0]] = class[1]
+				tmp[class[1]] = class[0]
+			}
 		}
-
-		generators := storage.generators[:1]
-		tmp := generators[0]
-		if cap(tmp) < n {
-			tmp = make([]int, n)
-		} else {
-			tmp = tmp[:n]
-		}
-		for i := range tmp {
-			tmp[i] = i + 1
-		}
-		tmp[n-1] = 0
-		generators[0] = tmp
-
-		if n == 2 {
-			return perm, ds, generators
-		}
-
-		generators = generators[:2]
-
-		tmp = generators[1]
-		if cap(tmp) < n {
-			tmp = make([]int, n)
-		} else {
-			tmp = tmp[:n]
-		}
-		for i := range tmp {
-			tmp[i] = i
-		}
-		tmp[0] = 1
-		tmp[1] = 0
-		generators[1] = tmp
 		return perm, ds, generators
 	}
 
